@@ -52,6 +52,7 @@ func (self *BinaryConv) doNative(ctx context.Context, src []byte, desc *thrift.T
 
 exec:
 	ret = native.J2T_FSM(fsm, buf, &jp, self.flags)
+	verifStep(fsm, buf, ret, start)
 	if ret != 0 {
 		if getErrCode(ret) == types.ERR_OOM_BUF {
 			// The native FSM can't be resumed reliably after it ran out of output space: part of its
